@@ -9,7 +9,7 @@ notes={
 'C04-m3':"round 2: caught after the C04-1 exclusion was narrowed to scalar-condition selects (it had switched every select off for MSL)",
 'C05-m3':"round 2: caught after wgen got a ptr<workgroup> helper for the workgroup slot write",
 'C07-m3':"round 2: caught",
-'C13-m3':"round 2: caught",
+'C13-m3':"round 2: caught; a re-run of every change on the final tree missed it at five seeds (the generator stream had moved), so C13 got a hand-written switch-group-call template, which catches it on every run",
 'C17-m3':"round 2: caught after C17 got an oracle for the HLSL prologue that rebuilds the WGSL arguments from the generated input struct",
 'C06-m3':"round 3: missed at first (no cross() in constant expressions); the constant generator now draws dot / cross and more vector-typed roots",
 'C08-m3':"round 3: caught",
